@@ -1192,10 +1192,39 @@ func (ex *executor) applyUnfoldEnv(c *Clause, env *specEnv) {
 	if !ok {
 		env.fail("unfold expects a spec function application")
 	}
+	if id.Name == "old" && len(call.Args) == 1 {
+		// unfold old(f(args)): the definition of f in the entry state (locals keep their current values)
+		if inner, ok := call.Args[0].(*ast.CallExpr); ok {
+			if iid, ok := inner.Fun.(*ast.Ident); ok && env.old != nil {
+				n := *env
+				n.st = env.old
+				n.preferCells = false
+				if n.cur == nil {
+					n.cur = env.st
+				}
+				cur := env.st
+				env = &n
+				call, id = inner, iid
+				defer func(st *state) { _ = st }(cur)
+				sfo := ex.eng.cs.Specs[id.Name]
+				if sfo == nil || sfo.Body == nil {
+					env.fail("unfold: %s is not a defined spec function", id.Name)
+				}
+				ex.unfoldIn(sfo, call, env, cur)
+				return
+			}
+		}
+		env.fail("unfold old(...) expects a spec function application")
+	}
 	sf := ex.eng.cs.Specs[id.Name]
 	if sf == nil || sf.Body == nil {
 		env.fail("unfold: %s is not a defined spec function", id.Name)
 	}
+	ex.unfoldIn(sf, call, env, env.st)
+}
+
+// unfoldIn assumes (in state `in`) that the application equals the instantiated body, both evaluated in env.
+func (ex *executor) unfoldIn(sf *SpecFunc, call *ast.CallExpr, env *specEnv, in *state) {
 	lhs := env.eval(call)
 	// evaluate body with params bound
 	var names []string
@@ -1219,7 +1248,7 @@ func (ex *executor) applyUnfoldEnv(c *Clause, env *specEnv) {
 	ne.pkgPath = sf.PkgPath
 	rt := ex.eng.resolveType(sf.Result, sf.PkgPath)
 	rhs := ne.toType(ne.eval(sf.Body), rt)
-	ex.assume(env.st, valuesEq(lhs, rhs))
+	ex.assume(in, valuesEq(lhs, rhs))
 }
 
 // ---------- locations ----------
